@@ -34,6 +34,10 @@ CHECKS = {
    technique="stateless depth-first exploration of all thread interleavings (iterative preemption bounding, timer expiry as environment deviation) of the real TransactionManager / Transaction / TransactionCancelTimer compiled from instrumented sources under a cooperative scheduler",
    text="After a sequential set-up (register, record old intents, arm the rollback timer) every multiset of up to two (quick, plus selected triples) or three (thorough) of Confirm(t1), Cancel(t1), Confirm(other), Cancel(other), Register(t2) runs concurrently with the timer-expiry environment event; all interleavings within the preemption/deviation bound are executed on the real code at the granularity of its lock, channel, select and timer operations. Every execution must end without panic (double close) or deadlock, with at most one rollback, no rollback after a successful Confirm, exactly one after a successful Cancel or an unanswered expiry, wrong-id calls failing without effect, and the slot released iff the transaction is resolved.",
    note="Sequential consistency; the rollback itself is a recording stub with two scheduling points (harness A). Bounds completed are printed in the evidence."),
+ "C13": dict(level="model_checking", engine="E4-sched", design="DESIGN.md §3 C13",
+   technique="stateless depth-first exploration of all interleavings (preemption bound) of the real Datastore.Sync loop and its storeSyncMsg goroutines, compiled from instrumented sources, over the real cache, for every notification sequence of a bounded alphabet, write workers in {1,2,16} and validation on/off; final stores compared with a reference model that applies the notifications in channel order",
+   text="A scripted target feeds every sequence of up to 2 (thorough 3) on-change notifications over a 14-message alphabet (scalar updates, two updates in one notification, a state leaf, JSON blobs at a list entry and at the list, a leaf-list sent as keys, deletes of a leaf / list entry / whole list, delete+update) and bracketed re-sync cycles (pre, START, up to two notifications, END, post; two cycles) through the datastore's own sync channel into the real Sync loop. Every cache call is a scheduling point, so the completion orders of concurrently processed notifications and of prune bracketing are enumerated. After the channel is drained and every write returned the CONFIG and STATE stores must equal the reference: latest notification per path wins, paths absent from a completed cycle are gone, state leaves are in the STATE store when validation is on, deletes remove exactly the element-wise subtree (prefix-related names mtu/mtu-ext, if/ifx, e1/e10 are preloaded).",
+   note="The cache executes each call atomically; cycles are well bracketed; JSON blobs do not repeat the list keys of their path (the converter rejects that by design). Overtaking with more than one write worker is a recorded known finding, so the clean guarantee is for one write worker."),
  "C19": dict(level="model_checking", engine="E4-sched", design="DESIGN.md §3 C19",
    technique="stateless depth-first exploration of all thread interleavings (preemption bound) and environment deviations (client cancellation, stream failure, ticker ticks at every point) of the real Subscribe / GetData / WatchDeviations handlers compiled from instrumented sources under a cooperative scheduler; deadlock, panic, leftover goroutines and waiting at rest are detected per execution",
    text="Datastore.Subscribe with 1..3 (thorough 4) subscriptions over 0..2 stored leaves, Server.GetData -> Datastore.Get in the four encodings with 1..3 paths, and Server.WatchDeviations run on a synchronous in-memory cache with a controllable stream whose Send is a scheduling point. The environment may cancel the client, make the stream fail (the next and all later Sends return an error) and fire every ticker, at every scheduling point within the deviation bound; a stalled consumer is a Send that blocks until the client is gone. In every execution the handler must return, every goroutine it started must have finished, nothing may panic (double close, send on closed channel) or deadlock, and after a stream failure or exhausted data the handler must not wait for the client's cancellation.",
@@ -64,7 +68,7 @@ CHECKS = {
    note="Exhaustive within the value domain {v1,v2} per type and at most two paths; values are typed the way the request pipeline types them."),
  "C20": dict(level="exploration", engine="E3-inputs", design="DESIGN.md §3 C20",
    technique="bounded-exhaustive input enumeration with a crash oracle, every case executed in worker subprocesses (panic in any goroutine, fatal error and hang are observed per case; SIGQUIT stack dump names the call site)",
-   text="All path strings up to length 6 (quick) / 7 (thorough) over the alphabet 'a/[]=:\\ *' through ParsePath, StripPathElemPrefix, CompletePathFromString; the cross product of 53 paths (every schema node class, missing/extra/unknown keys, empty and nil elements) x 95 typed values (all 17 oneof kinds, nil forms, 33 JSON documents as JSON and JSON_IETF) through pkg/server.TransactionSet, also as replace intent and dry run; intent names x priorities x flags; GetData/Subscribe selectors; the same paths x values as device notifications (update and delete) through Datastore.Sync with validation on and off; NETCONF replies through the XML adapter and both tree importers. A case fails if it panics, crashes the process or does not return within 30 s three times.",
+   text="All path strings up to length 6 (quick) / 7 (thorough) over the alphabet 'a/[]=:\\ *' through ParsePath, StripPathElemPrefix, CompletePathFromString; the cross product of 53 paths (every schema node class, missing/extra/unknown keys, empty and nil elements) x 95 typed values (all 17 oneof kinds, nil forms, 33 JSON documents as JSON and JSON_IETF) through pkg/server.TransactionSet, also as replace intent and dry run; intent names x priorities x flags; GetData/Subscribe selectors; the same paths x values as device notifications (update and delete) through Datastore.Sync with validation on and off; NETCONF replies through the XML adapter and both tree importers; stored state x request: 19 typed values (leaf-lists of other lengths/element kinds, scalars of other kinds, nil forms, undecodable bytes) written into the running store at 7 kinds of leaves an intent configures, followed by re-applied, unrelated and ruling intents, a deviation cycle and GetData in four encodings. A case fails if it panics, crashes the process or does not return within 30 s three times.",
    note="Exhaustive only within the printed alphabets, sizes and document lists; 9466 cases in the quick tier."),
  "C18": dict(level="fault_enumeration", engine="E2-faults", design="DESIGN.md §3 C18",
    technique="exhaustive enumeration of behaviour assignments (ok / warning reply / error / rpc-error / EOF / dead) to every netconf.Driver call of the real ncTarget.Set, over real change documents, both commit-datastore settings and all 8 option combinations, with a candidate-modelling fake driver",
